@@ -23,6 +23,7 @@ func (w *World) Clone() *World {
 	c.Now = w.Now
 	c.Commits = append([]Commit{}, w.Commits...)
 	c.Calls = w.Calls
+	copy(c.roundsBase, w.roundsBase)
 	for _, ct := range w.Certs {
 		c.Certs = append(c.Certs, ct) // immutable once recorded
 	}
